@@ -78,6 +78,18 @@ func (c *Ctx) JournalLine(s string) {
 	_, _ = c.journal.WriteAt([]byte(fmt.Sprintf("%-8d%s\n", len(s), s)), 0)
 }
 
+// Flush writes the statistics gathered so far, so that they survive a crash of this worker.
+func (c *Ctx) Flush() {
+	c.Stats.Seal()
+	out, err := json.Marshal(c.Stats)
+	if err != nil {
+		return
+	}
+	if err := os.WriteFile(c.Spec.Result+".partial.tmp", out, 0o644); err == nil {
+		_ = os.Rename(c.Spec.Result+".partial.tmp", c.Spec.Result+".partial")
+	}
+}
+
 func (c *Ctx) PoisonSet() map[string]bool {
 	m := map[string]bool{}
 	for _, p := range c.Spec.Poison {
@@ -304,7 +316,15 @@ func ParentMain(self string, id, tier string, verifDir string) int {
 						}
 						break
 					}
-					// the worker died: attribute to the journalled case
+					// the worker died: keep what it had finished, attribute the death to the journalled case
+					if pb, perr := os.ReadFile(spec.Result + ".partial"); perr == nil {
+						var st Stats
+						if json.Unmarshal(pb, &st) == nil {
+							mu.Lock()
+							total.Merge(&st)
+							mu.Unlock()
+						}
+					}
 					j := readJournal(spec.Journal)
 					es := stderr.String()
 					if hung {
